@@ -26,7 +26,7 @@ func init() { core.Register(c13{}) }
 func (c13) ID() string    { return "C13" }
 func (c13) Level() string { return "exploration" }
 func (c13) Rule() string {
-	return "cases = generated op sequences (puts, deletes, batches with and without Sync, rotations, oversized values, explicit Sync, merges, Close/reopen; every fourth case starts on a directory left by an unclean shutdown - torn last record under standard I/O, pre-extended files under mmap - so that the policy is also checked on files whose size was reset by recovery) under each SyncStrategy x BytesPerSync {1,300,4096,1 MiB} x FileIOType; an online checker over the hooked write/sync event stream keeps, per data-directory file, written and durable offsets (durable advances only at a COMPLETED sync event) and attributes every write (with its padding bytes computed by the independent decoder) to the API call in flight; rules evaluated at every API return: Always -> every byte written by Put/Delete calls is durable; Threshold(B) -> non-padding bytes written by Put/Delete calls and not yet durable < B; Sync batch -> everything written during the call incl. the sealing record is durable; Sync() and Close() -> every data-directory file has written == durable; at the creation of data file n+1 every other data file is fully durable. conc cases: ONE writer goroutine (Put, every few calls Sync) runs while a second goroutine calls Merge repeatedly (Merge rotates the active file and writes only outside the data directory); the event handler sleeps at the sync hooks to widen windows; at the return of each Sync() every byte that had been written to a data-directory file when that Sync was CALLED must be durable, and at each Put return the Threshold bound must hold - exact, because only the writer appends to data-directory files. strace cases: the same kind of workload runs in a child under `strace -f -y -e trace=write,fsync,fdatasync`; per data file the bytes written and the number of successful fsync calls seen by the kernel must equal the hook log (so the checker does not merely check its own hooks). Non-trivial: case with >=1 rotation, >=1 Sync batch or explicit Sync, and >=40 rule evaluations; distinct = hash of (config, op list)"
+	return "cases = generated op sequences (puts, deletes, batches with and without Sync, rotations, oversized values, explicit Sync, merges, Close/reopen; every fourth case starts on a directory left by an unclean shutdown - torn last record under standard I/O, pre-extended files under mmap - so that the policy is also checked on files whose size was reset by recovery) under each SyncStrategy x BytesPerSync {1,300,4096,1 MiB} x FileIOType; an online checker over the hooked write/sync event stream keeps, per data-directory file, written and durable offsets (durable advances only at a COMPLETED sync event) and attributes every write (with its padding bytes computed by the independent decoder) to the API call in flight; rules evaluated at every API return: Always -> every byte written by Put/Delete calls is durable; Threshold(B) -> non-padding bytes written by Put/Delete calls and not yet durable < B; Sync batch -> everything written during the call incl. the sealing record is durable; Sync() and Close() -> every data-directory file has written == durable; at the creation of data file n+1 every other data file is fully durable. conc cases: ONE writer goroutine (Put, every few calls Sync) runs while a second goroutine calls Merge repeatedly (Merge rotates the active file and writes only outside the data directory); the event handler sleeps at the sync hooks to widen windows; at the return of each Sync() every byte that had been written to a data-directory file when that Sync was CALLED must be durable, and at each Put return the Threshold bound must hold - exact, because only the writer appends to data-directory files. strace cases: the same kind of workload runs in a child under `strace -f -y -e trace=write,fsync,fdatasync`; per data file the bytes written and the number of successful fsync calls seen by the kernel must equal the hook log (so the checker does not merely check its own hooks). Non-trivial: case with >=1 rotation, >=1 Sync batch or explicit Sync, and >=40 rule evaluations; distinct = hash of (config, op list) A few Threshold cases run with EnableBackgroundMerge: twice per case a trickle of small puts spans a tick of the merge timer, the timer-driven Merge is stretched at its first hook point, and the Threshold rule is evaluated at the return of every put as always (those cases never close, back up or merge on their own; their final Close is placed between two ticks)."
 }
 func (c13) Assumptions() []string {
 	return []string{"a completed fsync (FileIO) or msync/Flush (MMap) event makes all bytes written to that file before the event durable",
@@ -51,7 +51,17 @@ func (c13) Cases(tier string, seed uint64) []core.Case {
 		m := modes[i%len(modes)]
 		cfg := core.Config{IndexType: core.IndexTypes[r.Intn(3)], ShardNum: core.ShardNums[r.Intn(5)], FileIO: byte((i / len(modes)) % 2),
 			DataFileSize: []int64{4 << 10, 40 << 10, 64 << 10, 100000}[r.Intn(4)], Sync: m.S, BytesPerSync: m.B}
-		out = append(out, core.Case{Index: i, ID: fmt.Sprintf("c13-%05d", i), Seed: r.U64(), Data: seqCase{Cfg: cfg, NOps: r.Range(40, 200), NKeys: r.Range(3, 9)}})
+		flag := 0
+		if m.S == 2 && m.B >= 300 && ((tier != "thorough" && i%24 < 6) || i%600 < 6) {
+			// the timer-driven background merge is on and the workload pauses twice for more
+			// than one tick: whatever the background goroutine does, the Threshold rule holds
+			// at every return of the foreground calls
+			cfg.BgMerge, flag = true, 1
+			if i%2 == 0 {
+				cfg.MergeRatio = 0.95
+			}
+		}
+		out = append(out, core.Case{Index: i, ID: fmt.Sprintf("c13-%05d", i), Seed: r.U64(), Data: seqCase{Cfg: cfg, NOps: r.Range(40, 200), NKeys: r.Range(3, 9), Flag: flag}})
 	}
 	// one writer + a concurrent Merge client (policy at the writer's returns)
 	nc := 12
@@ -211,7 +221,17 @@ func (c13) Run(c core.Case, w *core.Worker) core.Result {
 		}
 	}
 	defer io.Install()()
+	if sc.Flag == 1 {
+		prevH := vhook.Set(nil)
+		vhook.Set(bgMergeDelay{inner: prevH, cur: &curKind, res: &res})
+		defer vhook.Set(prevH)
+	}
 	g := &core.Gen{R: r, Keys: core.GenKeys(r, sc.NKeys), Cfg: sc.Cfg, EndOff: io.ActiveEnd, NoRestart: true, MaxVal: 70 << 10}
+	// with the timer-driven merge on, the workload itself never closes, merges or backs up in
+	// mid-run: Close/Backup/Merge racing with a running Merge are outside C13 (and C09 lists
+	// them as exclusions); the final Close is placed between two ticks
+	g.NoMerge = sc.Flag == 1
+	var tOpen time.Time
 	if c.Index%4 == 3 {
 		// the run starts on a directory left by an unclean shutdown: a torn record at the end of
 		// the newest file (standard I/O) or files still at their pre-extended size (mmap)
@@ -224,6 +244,7 @@ func (c13) Run(c core.Case, w *core.Worker) core.Result {
 	if !s.Open() {
 		return res
 	}
+	tOpen = time.Now()
 	closeAndCheck := func() bool {
 		if !s.Close() {
 			return false
@@ -232,9 +253,28 @@ func (c13) Run(c core.Case, w *core.Worker) core.Result {
 		io.Mark("api.return", "closed-done", s.Step)
 		return true
 	}
+	pauseAt := map[int]bool{}
+	if sc.Flag == 1 {
+		pauseAt[r.Range(3, sc.NOps/2)] = true
+		pauseAt[r.Range(sc.NOps/2, sc.NOps-1)] = true
+	}
 	for i := 0; i < sc.NOps && !s.Dead && !violated; i++ {
+		if pauseAt[i] {
+			// a slow trickle of small puts for a little more than one tick of the background
+			// merge timer; the background Merge is stretched at its first hook point so that
+			// some of them are acknowledged while it runs
+			t0 := time.Now()
+			for time.Since(t0) < 1250*time.Millisecond && !s.Dead && !violated {
+				cur = core.Op{Kind: "put", Key: g.Key(), VLen: r.Range(20, 200), VSeed: r.U64()}
+				curKind = "put"
+				s.Exec(cur)
+				curKind = "between"
+				time.Sleep(4 * time.Millisecond)
+			}
+			res.Add("pauses_over_a_background_merge_tick", 1)
+		}
 		op := g.Next()
-		if r.Chance(1, 25) {
+		if sc.Flag == 0 && r.Chance(1, 25) {
 			// Close + reopen as explicit steps so that the Close rule is evaluated between them
 			cur = core.Op{Kind: "close"}
 			curKind = "close"
@@ -246,7 +286,7 @@ func (c13) Run(c core.Case, w *core.Worker) core.Result {
 			res.Add("restarts", 1)
 			continue
 		}
-		if r.Chance(1, 20) {
+		if sc.Flag == 0 && r.Chance(1, 20) {
 			// Backup in the middle (under mmap it unmaps and shrinks every file), then an explicit
 			// Sync: whatever was unflushed before the Backup must be durable when Sync returns
 			bdir := w.Dir("bk")
@@ -305,6 +345,12 @@ func (c13) Run(c core.Case, w *core.Worker) core.Result {
 		}
 	}
 	if s.DB != nil && !s.Dead {
+		if sc.Flag == 1 && !tOpen.IsZero() {
+			// ticks come at tOpen + k seconds; close 350..650 ms after one
+			for ph := time.Since(tOpen) % time.Second; ph < 350*time.Millisecond || ph > 650*time.Millisecond; ph = time.Since(tOpen) % time.Second {
+				time.Sleep(20 * time.Millisecond)
+			}
+		}
 		cur = core.Op{Kind: "close"}
 		closeAndCheck()
 	}
@@ -485,4 +531,22 @@ func runC13Concurrent(c core.Case, sc seqCase, w *core.Worker) core.Result {
 		res.Sample = map[string]any{"kind": "one writer + concurrent Merge", "config": sc.Cfg, "merges": merges}
 	}
 	return res
+}
+
+// bgMergeDelay stretches a Merge that was not called by the workload (the timer-driven one).
+type bgMergeDelay struct {
+	inner vhook.Handler
+	cur   *string
+	res   *core.Result
+}
+
+func (d bgMergeDelay) IO(kind, path string, off int64, n int, buf []byte) {
+	d.inner.IO(kind, path, off, n, buf)
+}
+func (d bgMergeDelay) FS(kind, a, b string) { d.inner.FS(kind, a, b) }
+func (d bgMergeDelay) Point(name string) {
+	if name == "merge.afterRotate" && *d.cur != "merge" {
+		time.Sleep(60 * time.Millisecond)
+	}
+	d.inner.Point(name)
 }
